@@ -92,6 +92,7 @@ struct St {
 	int64_t opp[3] = { 0, 0, 0 };             // dispatch opportunities while all three levels had old work
 	int64_t max_disp_per_iter = 0;
 	int64_t jobs_pending_total = 0;
+	int64_t cb_since_epoll = 0;               // callbacks dispatched since the loop last polled its descriptors
 };
 static St *Lp;
 #define L (*Lp)
@@ -179,6 +180,18 @@ static void fire_triggers(Obj &o)
 static void note_callback(int prio)
 {
 	L.callbacks++;
+	// one iteration polls the descriptors once and dispatches at most four items per level: a loop that dispatches
+	// hundreds of items without polling has stopped looking at its descriptors (and at the signal pipe)
+	if (++L.cb_since_epoll == 400) {
+		for (size_t i = 0; i < L.objs.size(); i++) {
+			Obj &o = L.objs[i];
+			if (o.type == O_FD && o.reg && (o.bytes > 0 || o.peer_closed))
+				VIOL(which == 10 ? 10 : 8, "descriptors-not-polled", "qb_loop_run", "400 callbacks were dispatched without the loop polling its descriptors once, while descriptor object %d is registered and ready", o.id);
+			if (o.type == O_SIG && o.sreg && o.must > 0)
+				VIOL(which == 10 ? 10 : 8, "descriptors-not-polled", "qb_loop_run", "400 callbacks were dispatched without the loop polling its descriptors once, while a delivered signal waits for handler %d", o.id);
+		}
+	}
+	if (L.cb_since_epoll == 20000 && !L.stopped) { qb_loop_stop(L.loop); L.stopped = true; }      // nothing to judge: end the run
 	if (L.stopped && L.stop_by_plan) VIOL(8, "callback-after-stop", "qb_loop_run", "a callback ran after qb_loop_stop had been called from a callback");
 	L.disp_iter[prio]++;
 }
@@ -595,6 +608,7 @@ static void c10_iteration_boundary()
 
 static void on_epoll_wait(int timeout)
 {
+	L.cb_since_epoll = 0;
 	if (L.eintr_just_fired) { L.eintr_just_fired = false; count(p_eintr_epoll); return; }    // a retry, not a new iteration
 	c10_iteration_boundary();
 	L.iter++;
